@@ -1,5 +1,6 @@
 SPECIFICATION Spec
-CONSTANTS Mutant = "merge_inverted"
-  Full = FALSE
+CONSTANTS Mutant = "none"
+  Full = TRUE
 INVARIANTS InvTypes InvSignature InvUnsigned InvAlgKey InvAlgAllowed InvIssuer InvAudience InvScopes InvValidity InvKidUnique InvMerge InvRefines InvVerdict
+PROPERTY Terminates
 CHECK_DEADLOCK FALSE
